@@ -1,10 +1,11 @@
 // Native replay for C29/C28 on the REAL method bodies of DisjointSet (the text extracted from UnionFind.h on this run,
 // compiled against the yield-instrumented std::atomic of /verif/stubs): systematic exploration of two-thread histories
-//   [prefix: at most one completed union]  A = unionNodes(a,b)  pre-empted ONCE, before its k-th atomic step, by B = unionNodes(c,d)
+//   [prefix: at most one completed union]  A = unionNodes(a,b)  pre-empted ONCE, before its k-th atomic step, by B = one or two unionNodes calls
 // over 3 and 4 nodes.  After every atomic step of A the forest must be acyclic; at the end the partition must be exactly
 // the closure of the requested unions and sameSet must agree with it.  exit 1 = violating history found (printed).
 #include <cstdio>
 #include <cstdlib>
+#include <cstring>
 #include <vector>
 #include "vx_uf.h"
 #include "extracted.hpp"
@@ -13,7 +14,7 @@ using namespace souffle;
 static unsigned long g_blk[8];
 static unsigned long g_n;
 static int g_inA, g_inB, g_stepA, g_preempt;
-static unsigned long g_bx, g_by;
+static unsigned long g_bx, g_by; static long g_b2x = -1, g_b2y = -1;
 static DisjointSet* g_ds;
 static std::vector<std::pair<unsigned long, unsigned long>> g_req;
 static char g_desc[256];
@@ -48,7 +49,7 @@ void vx_yield(void) {
     if (g_inA && !g_inB) {
         g_stepA++;
         if (g_stepA > 400) fail("thread A does not terminate (livelock on a corrupted forest)");
-        if (g_stepA == g_preempt) { g_inB = 1; g_ds->unionNodes(g_bx, g_by); g_inB = 0; }
+        if (g_stepA == g_preempt) { g_inB = 1; g_ds->unionNodes(g_bx, g_by); if (g_b2x >= 0) g_ds->unionNodes((unsigned long)g_b2x, (unsigned long)g_b2y); g_inB = 0; }
     } else if (g_inB) {
         static int guard; if (++guard > 100000000) fail("thread B does not terminate");
     }
@@ -62,19 +63,20 @@ int main() {
         std::vector<std::pair<unsigned long, unsigned long>> pairs;
         for (unsigned long a = 0; a < n; a++) for (unsigned long b = 0; b < n; b++) if (a != b) pairs.push_back({a, b});
         for (int pre = -1; pre < (int)pairs.size(); pre++)
-        for (auto A : pairs) for (auto B : pairs) for (int k = 1; k < 60; k++) {
+        for (auto A : pairs) for (auto B : pairs) for (int b2 = -1; b2 < (int)pairs.size(); b2++) for (int k = 1; k < 60; k++) {
             DisjointSet ds; g_ds = &ds; g_n = 0;
             for (unsigned long i = 0; i < n; i++) ds.makeNode();
             g_req.clear();
             if (pre >= 0) { ds.unionNodes(pairs[pre].first, pairs[pre].second); g_req.push_back(pairs[pre]); }
-            std::snprintf(g_desc, sizeof g_desc, "%lu nodes; prefix %s(%lu,%lu); A=unionNodes(%lu,%lu) pre-empted before its atomic step %d by B=unionNodes(%lu,%lu)",
-                    n, pre >= 0 ? "union" : "none", pre >= 0 ? pairs[pre].first : 0ul, pre >= 0 ? pairs[pre].second : 0ul, A.first, A.second, k, B.first, B.second);
-            g_bx = B.first; g_by = B.second; g_preempt = k; g_stepA = 0; g_inA = 1;
+            std::snprintf(g_desc, sizeof g_desc, "%lu nodes; prefix %s(%lu,%lu); A=unionNodes(%lu,%lu) pre-empted before its atomic step %d by B=unionNodes(%lu,%lu)%s",
+                    n, pre >= 0 ? "union" : "none", pre >= 0 ? pairs[pre].first : 0ul, pre >= 0 ? pairs[pre].second : 0ul, A.first, A.second, k, B.first, B.second, b2 >= 0 ? " followed by a second union of B" : "");
+            if (b2 >= 0) std::snprintf(g_desc + std::strlen(g_desc), sizeof g_desc - std::strlen(g_desc), " unionNodes(%lu,%lu)", pairs[b2].first, pairs[b2].second);
+            g_bx = B.first; g_by = B.second; g_b2x = b2 >= 0 ? (long)pairs[b2].first : -1; g_b2y = b2 >= 0 ? (long)pairs[b2].second : -1; g_preempt = k; g_stepA = 0; g_inA = 1;
             ds.unionNodes(A.first, A.second);
             g_inA = 0;
             histories++;
             bool preempted = g_stepA >= k;
-            g_req.push_back(A); if (preempted) g_req.push_back(B);
+            g_req.push_back(A); if (preempted) { g_req.push_back(B); if (b2 >= 0) g_req.push_back(pairs[b2]); }
             std::vector<unsigned long> ref(n); for (unsigned long i = 0; i < n; i++) ref[i] = i;
             for (auto r : g_req) ref[ref_find(ref, r.first)] = ref_find(ref, r.second);
             if (!acyclic()) fail("parent links form a cycle");
